@@ -200,6 +200,9 @@ class Be(Family):
             name = rng.choice(HANDLED) if rng.chance(9, 10) else rng.choice(UNHANDLED)
             code, body, fds = g.request(name)
             b = W.msg(code, body, need_reply=rng.chance(1, 2))
+            if rng.chance(1, 12):
+                # a header-valid message that is not a request: the REPLY bit is set
+                b = W.msg(code, body, flags=1 | 4 | (8 if rng.chance(1, 2) else 0))
             if malformed and rng.chance(1, 2):
                 b, fds = mutate(g, rng, b, fds)
             if malformed and rng.chance(1, 10) and len(b) > 13:
